@@ -23,9 +23,9 @@ From V Require Export Base.Hex Crash.Storage Crash.Protocol Crash.ToyHash.
 (* which code the model is compared with: true = store.sync() fsyncs the hash tree after the tx log and
    before the commit entries are appended (the code since fix b260503); false = the code before it *)
 Definition repair_applied : bool := true.
-(* RCut = ahtree.ResetSize rewinds the tree's commit log without fsyncing it (the code as it is, fix
-   6a85281); RSync = the proposed repair fixes/C03-aht-durable-reset.diff (... and fsyncs it) *)
-Definition aht_durable_reset : rmode := RCut.
+(* RSync = ahtree.ResetSize rewinds the tree's commit log AND fsyncs it (the code since fix 0b488aa);
+   RCut = the code between 6a85281 and 0b488aa (rewound, not fsynced); RMem = before 6a85281 *)
+Definition aht_durable_reset : rmode := RSync.
 (* PreallocFiles is not part of the correspondence run (the cases are recorded without it) *)
 Definition code_cfg (thld maxact : N) : cfg := mkCfg thld maxact false 0 aht_durable_reset false repair_applied.
 
